@@ -313,8 +313,19 @@ def check_run_query(only=None):
         conn = beanquery.connect('beancount:', entries=entries, errors=[], options=options)
         cur = conn.execute(text)
         rows = cur.fetchall()
-        etypes, erows = bq_numberify.numberify_results(cur.description, rows, options['dcontext'].build())
         case = {'kind': 'run_query', 'text': text}
+        try:
+            etypes, erows = bq_numberify.numberify_results(cur.description, rows, options['dcontext'].build())
+        except Exception as e:
+            out.append(Violation(f'numberify:crash:{type(e).__name__}', f'numberify_results on the result of {text!r} raised {type(e).__name__}: {e}', case))
+            continue
+        # plain columns of the API result must come back untouched, in place (independent of the differential below)
+        plain = [(i, c.name) for i, c in enumerate(cur.description) if c.datatype not in AMOUNTLIKE_TYPES]
+        names = [c.name for c in etypes]
+        for i, name in plain:
+            if name not in names or [r[names.index(name)] for r in erows] != [r[i] for r in rows]:
+                out.append(Violation('numberify:plain-column-changed', f'numberify_results on the result of {text!r}: the plain column {name!r} does not come back unchanged', case))
+                break
         try:
             gtypes, grows = bq_query.run_query(entries, options, text, numberify=True)
             ptypes, prows = bq_query.run_query(entries, options, text)
